@@ -37,6 +37,9 @@ type GroupingAggregator interface {
 	Interval() timeutil.Interval
 	// Fields returns all fields.
 	Fields() []field.Name
+	// AddAggregatorSpecs adds the aggregator specs of fields which are not known yet
+	// (partial results of different nodes may carry different field sets).
+	AddAggregatorSpecs(aggSpecs AggregatorSpecs)
 }
 
 // groupingAggregator implements GroupingAggregator interface.
@@ -135,6 +138,26 @@ func (ga *groupingAggregator) Fields() []field.Name {
 		idx++
 	}
 	return rs
+}
+
+// AddAggregatorSpecs adds the aggregator specs of fields which are not known yet.
+func (ga *groupingAggregator) AddAggregatorSpecs(aggSpecs AggregatorSpecs) {
+	for _, spec := range aggSpecs {
+		found := false
+		for _, known := range ga.aggSpecs {
+			if known.FieldName() == spec.FieldName() {
+				found = true
+				break
+			}
+		}
+		if found {
+			continue
+		}
+		ga.aggSpecs = append(ga.aggSpecs, spec)
+		for tags, agg := range ga.aggregates {
+			ga.aggregates[tags] = append(agg, NewMergeSeriesAggregator(ga.interval, ga.intervalRatio, ga.timeRange, spec))
+		}
+	}
 }
 
 // getAggregator returns the time series aggregator by the tag of time series.
